@@ -837,6 +837,21 @@ loop:
 					break loop
 				}
 
+				// Checked before the stream limit: an id below the latest one is
+				// not a stream that could be refused and tried again, it is one
+				// the peer may not use at all (RFC 7540 5.1.1).
+				if fr.Stream() < sc.lastID {
+					sc.writeGoAway(fr.Stream(), ProtocolError, "stream ID is lower than the latest")
+
+					// The streams opened so far are served to the end. If there
+					// are none left nothing else would end the loop.
+					if canCloseAfterGoAway() {
+						break loop
+					}
+
+					continue
+				}
+
 				// if the client has more open streams than the maximum allowed OR
 				//   the connection is closing, then refuse the stream
 				if openStreams >= int(sc.st.maxStreams) || wasClosing {
@@ -863,18 +878,6 @@ loop:
 					// changed the peer's HPACK table and has to change ours.
 					if err := sc.handleInFlight(fr); err != nil {
 						sc.writeError(nil, err)
-						break loop
-					}
-
-					continue
-				}
-
-				if fr.Stream() < sc.lastID {
-					sc.writeGoAway(fr.Stream(), ProtocolError, "stream ID is lower than the latest")
-
-					// The streams opened so far are served to the end. If there
-					// are none left nothing else would end the loop.
-					if canCloseAfterGoAway() {
 						break loop
 					}
 
